@@ -8,8 +8,8 @@ what is proved of its body; the induction is over len(dims), the call-requires o
 shorter` makes it well founded):
 
   requires  len(dims) >= 1 or base_rowids is None;  base_rowids is None or strictly increasing uint32;
-            the entries of every dimension are non-empty strictly increasing uint32 arrays under keys (k,) with
-            k >= 0 (iindex well-formedness, C07), and one axis per dimension;
+            the entries of every dimension are strictly increasing uint32 arrays (possibly empty: an explicit entry
+            without rows must be skipped) under keys (k,) with k >= 0, and one axis per dimension;
   ensures   for EVERY coordinate tuple c = (c_0, ..., c_{n-1}) and every func of funcs, the number of calls
             func(base_coords + c, rows) made is
                 1  if every c_i is a key of dims[i] or -1, and (base_rowids is not None or some c_i != -1),
@@ -174,12 +174,25 @@ class WalkExec:
         if isinstance(v, Coords):
             if all(not isinstance(s, tuple) for s in v.segs):
                 return len(v.segs) > 0
-            raise Unsupported("truth value of symbolic coordinates")
+            return self.coords_len(v) > 0
         if z3.is_bool(v):
             return v
         if z3.is_int(v):
             return v != 0
         raise Unsupported("truth value of %r" % (v,))
+
+    def coords_len(self, v):
+        """len of a coordinate tuple: abstract segments have unknown non-negative lengths"""
+        total = z3.IntVal(0)
+        for s_ in v.segs:
+            if isinstance(s_, tuple):
+                ln = z3.Int("len_%s" % s_[0])
+                if not any(h.eq(ln >= 0) for h in self.hyps):
+                    self.hyps.append(ln >= 0)
+                total = total + ln
+            else:
+                total = total + 1
+        return total
 
     # ---------------------------------------------------------------- expressions
     def ev(self, e, env, pc):
@@ -317,6 +330,8 @@ class WalkExec:
                 return c
             if isinstance(v, Rows):
                 return LenOf(v)
+            if isinstance(v, Coords):
+                return self.coords_len(v)
             raise Unsupported("len(%r) in %s" % (v, src))
         if isinstance(f, Token) and f.name.startswith("items@") and not args:
             return Items(DimV(int(f.name.split("@")[1])))
@@ -447,8 +462,8 @@ def verify_walk(tree, module="ccubes.ccube"):
     for case_n, base_none in (("many", True), ("many", False), ("one", True), ("one", False), ("zero", True)):
         tag = "[%s-dims,%s]" % ({"many": "several", "one": "one", "zero": "no"}[case_n], "unrestricted" if base_none else "restricted")
         X = WalkExec(fn, tree, case_n, base_none).run()
-        # well-formed dimensions (C07): keys are non-negative and no entry is empty
-        hyps = list(X.hyps) + [z3.Implies(iskey(c0), z3.And(c0 >= 0, Ent(c0) != EMPTY)), z3.Implies(allmR, RowsR == FULL)]
+        # keys are non-negative; an entry MAY be empty (an explicit entry without rows is matched by no row and must be skipped)
+        hyps = list(X.hyps) + [z3.Implies(iskey(c0), c0 >= 0), z3.Implies(allmR, RowsR == FULL)]
         E0 = z3.If(c0 == -1, FULL, Ent(c0))
         if case_n == "many":
             target = (("B",), c0, ("R",))
@@ -465,7 +480,7 @@ def verify_walk(tree, module="ccubes.ccube"):
         for i, ev in enumerate(X.events, 1):
             name = "%s._walk/%s@%d%s" % (module, ev["kind"], i, tag)
             k = ev["key"]
-            pc = list(ev["pc"]) + ([iskey(k), k >= 0, Ent(k) != EMPTY] if k is not None else [])
+            pc = list(ev["pc"]) + ([iskey(k), k >= 0] if k is not None else [])
             sub = (lambda t: z3.substitute(t, (k, c0))) if k is not None else (lambda t: t)
             if ev["kind"] == "deliver":
                 m = _match(ev["coords"].segs, target)
